@@ -541,12 +541,22 @@ func coqStrList(l []string) string {
 }
 
 func genTables(repo, out string) error {
-	p, err := loadPkg(filepath.Join(repo, "gbn"))
+	// gbn: the connection's goroutines and their shared structs
+	if err := genTablesFor(repo, out, "gbn", "TablesGen.v",
+		[]string{"queue", "TimeoutManager", "TimeoutBooster", "syncer", "IntervalAwareForceTicker", "GoBackNConn"}); err != nil {
+		return err
+	}
+	// mailbox: the connection wrappers with their retry loops and the noise connection objects
+	return genTablesFor(repo, out, "mailbox", "MailboxTablesGen.v",
+		[]string{"ClientConn", "ServerConn", "Client", "Server", "NoiseGrpcConn", "ConnData", "connKit", "grpcTransport", "websocketTransport"})
+}
+
+func genTablesFor(repo, out, pkgDir, fileName string, shared []string) error {
+	p, err := loadPkg(filepath.Join(repo, pkgDir))
 	if err != nil {
 		return err
 	}
 	// struct fields of the types whose state is shared between goroutines
-	shared := []string{"queue", "TimeoutManager", "TimeoutBooster", "syncer", "IntervalAwareForceTicker", "GoBackNConn"}
 	fields := map[string]map[string]bool{}
 	for _, f := range p.files {
 		for _, d := range f.Decls {
@@ -649,7 +659,7 @@ func genTables(repo, out string) error {
 		}
 	}
 	var b strings.Builder
-	b.WriteString("(* GENERATED by tools/go2coq (tables.go) from gbn/*.go — do not edit. *)\n")
+	fmt.Fprintf(&b, "(* GENERATED by tools/go2coq (tables.go) from %s/*.go — do not edit. *)\n", pkgDir)
 	b.WriteString("From Coq Require Import String List Bool.\nImport ListNotations.\nOpen Scope string_scope.\n\n")
 	b.WriteString("(* every select statement: function, has a default case, channel of each case *)\n")
 	b.WriteString("Definition select_table : list (string * bool * list string) := [\n")
@@ -770,7 +780,7 @@ func genTables(repo, out string) error {
 	}
 	sort.Strings(funcs)
 	fmt.Fprintf(&b, "Definition function_table : list string := %s.\n", coqStrList(funcs))
-	path := filepath.Join(out, "TablesGen.v")
+	path := filepath.Join(out, fileName)
 	old, _ := os.ReadFile(path)
 	if string(old) != b.String() {
 		return os.WriteFile(path, []byte(b.String()), 0o644)
